@@ -124,4 +124,17 @@ instance (n va size : Nat) : Decidable (CertWellFormed n va size) := by unfold C
 def certType (b : Bytes) (va : Nat) : Nat := le16 b (va + 6)
 def certBytes (va size : Nat) : Ref := ⟨va + 8, size - 8, 1⟩
 
+/-! ### C01 for the debug decoders: every reference inside an interpreted entry is valid -/
+
+def cvRefsOK (img : Img) : CodeView → Prop
+  | .cv20 i n => RefOK img i ∧ RefOK img n
+  | .cv70 i n => RefOK img i ∧ RefOK img n
+
+def entryRefsOK (img : Img) : Entry → Prop
+  | .codeView cv => cvRefsOK img cv
+  | .dbg r => RefOK img r
+  | .pgo r => RefOK img r
+  | .unknown (some r) => RefOK img r
+  | .unknown none => True
+
 end Pelite.Dirs.Spec
